@@ -72,6 +72,29 @@ def make_jobs(chk):
             c = gen_spend.SpendCase(rng, "p2tr-script", mut, 1, 0, 0, pathlen=m)
             jobs.append(SessionJob("c%d:signed-leaf:m%d:%s" % (n, m, mut), b"", [], STANDARD, "BASE", cmds=["steps", "step", "step", "run"], cmp=gen_spend.CMP_SPEND, auto=True,
                                    txctx={"tx": c.tx.hex(), "txin": c.funding.hex(), "select": -1}))
+    # internal keys encoded at or above the field size p: BIP340 lift_x fails for them, also when their reduction mod p is a point's x
+    # (the output key is built for the reduced key, so only the range test can reject it)
+    P_ = btc.P
+    for m in (0, 1, 3):
+        for delta in (0, 1, 2, 5, 2**32 - 978):                   # p + delta < 2^256
+            x = delta
+            tries = 0
+            while btc.lift_x(x.to_bytes(32, "big")) is None and tries < 50:      # an x on the curve near delta
+                x += 1; tries += 1
+            if P_ + x >= 2**256: continue
+            e = (P_ + x).to_bytes(32, "big")
+            script = b"\x51"
+            k = btc.tapleaf_hash(script, 0xc0); path = b""
+            for i in range(m):
+                node = bytes(rng.randrange(256) for _ in range(32)); path += node; k = btc.tapbranch_hash(k, node)
+            t = int.from_bytes(btc.tagged_hash("TapTweak", e + k), "big")
+            pt = btc.lift_x(x.to_bytes(32, "big"))
+            if pt is None or t >= btc.N: continue
+            q = btc.point_add(pt, btc.point_mul(t))
+            if q is None: continue
+            ctrl = bytes([0xc0 | (q[1] & 1)]) + e + path
+            n += 1
+            jobs.append(mkjob(rng, "c%d:key-above-p:m%d:%d" % (n, m, delta), b"\x51\x20" + q[0].to_bytes(32, "big"), script, ctrl))
     # single-field corruptions of valid commitments
     for m in (0, 1, 2, 5):
         for rep in range(2 if quick else 40):
